@@ -3,7 +3,7 @@ from __future__ import annotations
 
 import json
 
-from . import fam_expr, fam_iter, fam_multi, fam_pairs, fam_pool, fam_proc, fam_sql
+from . import fam_expr, fam_iter, fam_multi, fam_names, fam_pairs, fam_pool, fam_proc, fam_sql
 from .core import Part, open_findings
 
 REGISTRY = {
@@ -11,6 +11,8 @@ REGISTRY = {
     "C14": {"families": [fam_iter.run, fam_sql.run, fam_multi.run], "assumptions": []},
     "C16": {"families": [fam_iter.run, fam_sql.run], "assumptions": ["the executor used in the replay really executes the relation in its engine"]},
     "C18": {"families": [fam_iter.run], "assumptions": ["leaf payloads are harness RowIterable subclasses counting __iter__ calls (public extension point)"]},
+    "C19": {"families": [fam_names.run], "assumptions": [
+        "uuid4 draws are fresh (the model shows this assumption is necessary: the counter alone does not give uniqueness)"]},
     "C20": {"families": [fam_iter.run, fam_sql.run, fam_multi.run], "assumptions": ["when a request is ill-formed in two ways (engine and columns) either documented class is accepted"]},
     "C12": {"families": [fam_expr.run], "assumptions": [
         "SQLite 3.40 (the only database available offline) stands for 'a database'",
